@@ -1,4 +1,4 @@
-"""C03 -- extract preserves behaviour or is refused (VGC rules R03.1-R03.10)."""
+"""C03 -- extract preserves behaviour or is refused (VGC rules R03.1-R03.11)."""
 from __future__ import annotations
 
 import ast
@@ -359,6 +359,11 @@ def check(ctx, res) -> None:
                 "comprehension was visited: an outer variable that merely shares its name with a comprehension variable is forgotten, so extract does "
                 "not pass it in (NameError) or does not pass it back (stale value)", function=comp_fn.qualname)
     res.floor("R03.10", "flow sets reduced by comprehension targets", n10, 2)
+
+    # ---- R03.11 (=R15.9) the host function's extent is not cut short by a comment line
+    from .c15 import scope_end_rule
+
+    scope_end_rule(ctx, res, "R03.11")
 
     # ---- R03.6 suite walker
     idx.need_class(SUITES)
